@@ -31,12 +31,15 @@ CONSTANTS Deviations,      \* subset of AllDevs
           Menu,            \* items allowed in a one-item model
           MultiMenu,       \* items allowed in models of two items
           TripleMenu,      \* items allowed in models of three and more items
+          HistMenu, HistVersions, \* one-item models / opsets for two-call histories and stamped sources
           VarMenu, VarVersions, \* further one-item models (parameter sweeps) and the opsets they are tried with
           MaxItems,
           Sources, Targets, \* opset ranges
           Emitting         \* print one CASE line per finished configuration
 
 VARIABLES s, t, entry, fb, items,          \* the configuration
+          mid, stamp,                      \* history: convert to `mid` first (0: single call); nodes carry version = s
+          stage, src,                      \* which call is running (1|2); opset the model declared when it started
           pc, path,
           nodes, orig,                     \* IR graph (flat, with place tags); forms before conversion
           funcs, fnDecl, declared,         \* model-local functions still present, their / the model's opset
@@ -46,7 +49,7 @@ VARIABLES s, t, entry, fb, items,          \* the configuration
           cin, cinit, cnodes,              \* the C-API side: converted model's inputs / initializers / nodes
           pOpset, pNodes, pFuncs, pIn, pInit,   \* the caller's ModelProto (entry = "proto")
           used                             \* deviation steps taken
-vars == <<s, t, entry, fb, items, pc, path, nodes, orig, funcs, fnDecl, declared, cur, fv, modified, clash,
+vars == <<s, t, entry, fb, items, mid, stamp, stage, src, pc, path, nodes, orig, funcs, fnDecl, declared, cur, fv, modified, clash,
           gin, ginit, cin, cinit, cnodes, pOpset, pNodes, pFuncs, pIn, pInit, used>>
 
 \* proto_opset_stale, dft_default_axis_changed and groupnorm_epsilon_dropped are FIXED in the code
@@ -163,6 +166,10 @@ ItemNodes(it, i, sv) ==
          \o Tag(body, "ifbody", i)
          \o (IF body[1].aux = "int" THEN <<>> ELSE Tag(<<N("Neg", 1, {}, "plain", "")>>, "ifbody", i))
          \o Tag(body, "ifbody", i)
+    [] it.place = "loopbody" ->
+         \* Loop(m, k) { body: cond = Identity(cond_in); scan output = body }  (two iterations)
+         Tag(<<N("Loop", 2, {"body"}, "plain", "")>>, "top", i)
+         \o Tag(<<N("Identity", 1, {}, "plain", "")>>, "ifbody", i) \o Tag(body, "ifbody", i)
 RECURSIVE AllNodes(_, _, _)
 AllNodes(its, i, sv) == IF i > Len(its) THEN <<>> ELSE ItemNodes(its[i], i, sv) \o AllNodes(its, i + 1, sv)
 Name(i, suffix) == <<i, suffix>>
@@ -171,6 +178,7 @@ AllInputs(its, i) == IF i > Len(its) THEN <<>>
                      ELSE LET ks == KindInputs(its[i].kind, its[i].par) IN
                           [k \in DOMAIN ks |-> Name(i, ks[k])]
                           \o (IF its[i].place = "ifbody" THEN <<Name(i, "c")>> ELSE <<>>)
+                          \o (IF its[i].place = "loopbody" THEN <<Name(i, "m"), Name(i, "k")>> ELSE <<>>)
                           \o AllInputs(its, i + 1)
 InitRecs(its, sv) == UNION {{[name |-> Name(i, r[1]), big |-> r[2], isInput |-> r[3]] : r \in KindInits(its[i].kind, its[i].par, sv)} : i \in DOMAIN its}
 InitNames(its, sv) == {r.name : r \in InitRecs(its, sv)}
@@ -238,12 +246,17 @@ I(k, p, par) == [kind |-> k, place |-> p, par |-> par]
 \* (the first item of a longer model must already come from the smaller menu: models grow by AddItem)
 \* items of VarMenu (the attribute/shape domains of the adapter ops) form one-item models, for the
 \* opset pairs in VarVersions x VarVersions
-Admissible(its) == CASE Len(its) = 1 -> \/ its[1] \in Menu
+\* histories of two calls and version-stamped sources are explored on the one-item models of HistMenu
+Admissible(its) == CASE mid # 0 \/ stamp -> Len(its) = 1 /\ its[1] \in HistMenu
+                     [] Len(its) = 1 -> \/ its[1] \in Menu
                                         \/ its[1] \in VarMenu /\ s \in VarVersions /\ t \in VarVersions
                      [] Len(its) = 2 -> \A i \in DOMAIN its : its[i] \in MultiMenu
                      [] OTHER -> \A i \in DOMAIN its : its[i] \in TripleMenu
 
 Init == /\ s \in Sources /\ t \in Targets /\ entry \in {"ir", "proto"} /\ fb \in BOOLEAN
+        /\ mid \in {0} \cup HistVersions /\ stamp \in BOOLEAN /\ stage = 1 /\ src = 0
+        /\ (mid # 0 \/ stamp) => /\ s \in HistVersions /\ t \in HistVersions /\ mid # s /\ mid # t
+                                 /\ ~(mid # 0 /\ stamp) /\ (stamp => entry = "ir")
         /\ items = <<>> /\ pc = "build" /\ path = "none"
         /\ nodes = <<>> /\ orig = <<>> /\ funcs = {} /\ fnDecl = 0 /\ declared = 0
         /\ cur = 0 /\ fv = 0 /\ modified = FALSE /\ clash = FALSE
@@ -251,22 +264,25 @@ Init == /\ s \in Sources /\ t \in Targets /\ entry \in {"ir", "proto"} /\ fb \in
         /\ pOpset = 0 /\ pNodes = <<>> /\ pFuncs = {} /\ pIn = <<>> /\ pInit = {}
         /\ used = {}
 
-cfgVars == <<s, t, entry, fb, items>>
+cfgVars == <<s, t, entry, fb, items, mid, stamp>>
 capiVars == <<cin, cinit, cnodes>>
 protoVars == <<pOpset, pNodes, pFuncs, pIn, pInit>>
 irVars == <<nodes, funcs, fnDecl, declared, gin, ginit>>
 loopVars == <<cur, fv, modified, clash>>
 
 AddItem == /\ pc = "build" /\ Len(items) < MaxItems
-           /\ \E it \in Menu \cup VarMenu \cup MultiMenu \cup TripleMenu :
+           /\ \E it \in Menu \cup VarMenu \cup MultiMenu \cup TripleMenu \cup HistMenu :
                  /\ Admissible(Append(items, it))
                  /\ items' = Append(items, it)
-           /\ UNCHANGED <<s, t, entry, fb, pc, path, orig, used>> /\ UNCHANGED irVars
+           /\ UNCHANGED <<s, t, entry, fb, mid, stamp, pc, path, orig, stage, src, used>> /\ UNCHANGED irVars
            /\ UNCHANGED loopVars /\ UNCHANGED capiVars /\ UNCHANGED protoVars
 
 \* The caller's model M: an ir.Model (entry "ir") or a ModelProto that is deserialised first.
+\* stamp: the in-memory model comes from a builder/exporter that sets node.version on every node
+Stamped(ns) == [k \in DOMAIN ns |-> IF stamp /\ ns[k].dom = "" THEN [ns[k] EXCEPT !.ver = s] ELSE ns[k]]
 FromProto == /\ pc = "build" /\ Len(items) >= 1
-             /\ nodes' = AllNodes(items, 1, s)
+             /\ nodes' = Stamped(AllNodes(items, 1, s))
+             /\ stage' = 1 /\ src' = s
              /\ funcs' = FuncIds(items) /\ fnDecl' = s /\ declared' = s
              /\ gin' = AllInputs(items, 1) /\ ginit' = InitNames(items, s)
              /\ orig' = Forms(AllNodes(items, 1, s))
@@ -283,21 +299,23 @@ Inline == /\ pc = "inline"
                       IN [k \in DOMAIN body |-> IF body[k].place = "func" THEN [body[k] EXCEPT !.place = "top"] ELSE body[k]]
           /\ funcs' = {}
           /\ pc' = "decide"
-          /\ UNCHANGED cfgVars /\ UNCHANGED <<path, orig, fnDecl, declared, gin, ginit, used>>
+          /\ UNCHANGED cfgVars /\ UNCHANGED <<path, orig, stage, src, fnDecl, declared, gin, ginit, used>>
           /\ UNCHANGED loopVars /\ UNCHANGED capiVars /\ UNCHANGED protoVars
 
-VersionSupported == SUPPORTED_MIN <= declared /\ declared <= t /\ t <= SUPPORTED_MAX
-DecideNoop == /\ pc = "decide" /\ declared = t
+\* the target of the call that is running
+Tgt == IF mid # 0 /\ stage = 1 THEN mid ELSE t
+VersionSupported == SUPPORTED_MIN <= declared /\ declared <= Tgt /\ Tgt <= SUPPORTED_MAX
+DecideNoop == /\ pc = "decide" /\ declared = Tgt
               /\ path' = "noop" /\ pc' = "cleanup"
-              /\ UNCHANGED cfgVars /\ UNCHANGED <<orig, used>> /\ UNCHANGED irVars
+              /\ UNCHANGED cfgVars /\ UNCHANGED <<orig, stage, src, used>> /\ UNCHANGED irVars
               /\ UNCHANGED loopVars /\ UNCHANGED capiVars /\ UNCHANGED protoVars
-DecideNative == /\ pc = "decide" /\ declared # t /\ (~fb \/ VersionSupported)
+DecideNative == /\ pc = "decide" /\ declared # Tgt /\ (~fb \/ VersionSupported)
                 /\ path' = "native" /\ pc' = "visit" /\ cur' = 1 /\ fv' = 0 /\ modified' = FALSE /\ UNCHANGED clash
-                /\ UNCHANGED cfgVars /\ UNCHANGED <<orig, used>> /\ UNCHANGED irVars
+                /\ UNCHANGED cfgVars /\ UNCHANGED <<orig, stage, src, used>> /\ UNCHANGED irVars
                 /\ UNCHANGED capiVars /\ UNCHANGED protoVars
-DecideFallback == /\ pc = "decide" /\ declared # t /\ fb /\ ~VersionSupported
+DecideFallback == /\ pc = "decide" /\ declared # Tgt /\ fb /\ ~VersionSupported
                   /\ path' = "fallback" /\ pc' = "capi_strip"
-                  /\ UNCHANGED cfgVars /\ UNCHANGED <<orig, used>> /\ UNCHANGED irVars
+                  /\ UNCHANGED cfgVars /\ UNCHANGED <<orig, stage, src, used>> /\ UNCHANGED irVars
                   /\ UNCHANGED loopVars /\ UNCHANGED capiVars /\ UNCHANGED protoVars
 
 -----------------------------------------------------------------------------
@@ -305,22 +323,22 @@ DecideFallback == /\ pc = "decide" /\ declared # t /\ fb /\ ~VersionSupported
 AtNode == pc = "visit" /\ cur <= Len(nodes)
 Cur == nodes[cur]
 NodeVersion(n) == IF n.ver # 0 THEN n.ver ELSE declared          \* node.version or default opset
-Keep == /\ UNCHANGED cfgVars /\ UNCHANGED <<path, orig, funcs, fnDecl, declared, gin, ginit, clash>>
+Keep == /\ UNCHANGED cfgVars /\ UNCHANGED <<path, orig, stage, src, funcs, fnDecl, declared, gin, ginit, clash>>
         /\ UNCHANGED capiVars /\ UNCHANGED protoVars
 
 SkipNode == /\ AtNode /\ fv = 0 /\ Cur.dom # ""                  \* `if node.domain != "": continue`
             /\ cur' = cur + 1 /\ UNCHANGED <<fv, modified, nodes, pc, used>> /\ Keep
 \* down-conversion is refused at the first default-domain node: the exception leaves the pass
-Raise == /\ AtNode /\ fv = 0 /\ Cur.dom = "" /\ t < NodeVersion(Cur)
+Raise == /\ AtNode /\ fv = 0 /\ Cur.dom = "" /\ Tgt < NodeVersion(Cur)
          /\ path' = "raised" /\ pc' = "done"
-         /\ UNCHANGED cfgVars /\ UNCHANGED <<orig, used>> /\ UNCHANGED irVars
+         /\ UNCHANGED cfgVars /\ UNCHANGED <<orig, stage, src, used>> /\ UNCHANGED irVars
          /\ UNCHANGED loopVars /\ UNCHANGED capiVars /\ UNCHANGED protoVars
-BeginNode == /\ AtNode /\ fv = 0 /\ Cur.dom = "" /\ NodeVersion(Cur) <= t
-             /\ IF NodeVersion(Cur) = t THEN cur' = cur + 1 /\ fv' = 0      \* empty range(node_version, target)
+BeginNode == /\ AtNode /\ fv = 0 /\ Cur.dom = "" /\ NodeVersion(Cur) <= Tgt
+             /\ IF NodeVersion(Cur) = Tgt THEN cur' = cur + 1 /\ fv' = 0      \* empty range(node_version, target)
                 ELSE cur' = cur /\ fv' = NodeVersion(Cur)
              /\ UNCHANGED <<modified, nodes, pc, used>> /\ Keep
-Advance == IF fv + 1 = t THEN cur' = cur + 1 /\ fv' = 0 ELSE cur' = cur /\ fv' = fv + 1
-InStep == AtNode /\ fv # 0 /\ fv < t
+Advance == IF fv + 1 = Tgt THEN cur' = cur + 1 /\ fv' = 0 ELSE cur' = cur /\ fv' = fv + 1
+InStep == AtNode /\ fv # 0 /\ fv < Tgt
 SetVer(v) == nodes' = [nodes EXCEPT ![cur].ver = v]
 
 StepNoAdapter == /\ InStep /\ ~HasAdapter(Cur, fv)
@@ -355,14 +373,14 @@ Design_AbortUnchanged ==
                       /\ nodes' = [k \in DOMAIN orig |-> [N(orig[k].op, orig[k].nin, orig[k].attrs, orig[k].sem, "")
                                                            EXCEPT !.dom = orig[k].dom]]
                       /\ path' = "unsupported" /\ pc' = "cleanup"
-                      /\ UNCHANGED cfgVars /\ UNCHANGED <<orig, funcs, fnDecl, declared, gin, ginit, used>>
+                      /\ UNCHANGED cfgVars /\ UNCHANGED <<orig, stage, src, funcs, fnDecl, declared, gin, ginit, used>>
                       /\ UNCHANGED loopVars /\ UNCHANGED capiVars /\ UNCHANGED protoVars
 \* after the graph the remaining functions are visited (none are left after inlining), then
 \* _set_onnx_opset_version(function) / (model)
 SetOpset == /\ pc = "visit" /\ cur > Len(nodes)
-            /\ declared' = t /\ fnDecl' = (IF funcs = {} THEN fnDecl ELSE t)
+            /\ declared' = Tgt /\ fnDecl' = (IF funcs = {} THEN fnDecl ELSE Tgt)
             /\ pc' = IF modified THEN "namefix" ELSE "cleanup"
-            /\ UNCHANGED cfgVars /\ UNCHANGED <<path, orig, nodes, funcs, gin, ginit, used>>
+            /\ UNCHANGED cfgVars /\ UNCHANGED <<path, orig, stage, src, nodes, funcs, gin, ginit, used>>
             /\ UNCHANGED loopVars /\ UNCHANGED capiVars /\ UNCHANGED protoVars
 \* `if self._modified: NameFixPass()(model)`.  Every replacement numbered its new values from val_0.
 \* The pass walks the graph in order and renames a value whose name is already taken in the scopes
@@ -377,7 +395,7 @@ NameFix == /\ pc = "namefix"
               THEN clash' = TRUE /\ used' = used \cup {"subgraph_name_clash"}
               ELSE clash' = FALSE /\ used' = used
            /\ pc' = "cleanup"
-           /\ UNCHANGED cfgVars /\ UNCHANGED <<path, orig, cur, fv, modified>> /\ UNCHANGED irVars
+           /\ UNCHANGED cfgVars /\ UNCHANGED <<path, orig, stage, src, cur, fv, modified>> /\ UNCHANGED irVars
            /\ UNCHANGED capiVars /\ UNCHANGED protoVars
 
 -----------------------------------------------------------------------------
@@ -391,42 +409,42 @@ CApiStrip == /\ pc = "capi_strip"
              /\ cinit' = ginit \ BigInits(items, s)
              /\ cnodes' = nodes
              /\ pc' = "capi_convert"
-             /\ UNCHANGED cfgVars /\ UNCHANGED <<path, orig, used>> /\ UNCHANGED irVars
+             /\ UNCHANGED cfgVars /\ UNCHANGED <<path, orig, stage, src, used>> /\ UNCHANGED irVars
              /\ UNCHANGED loopVars /\ UNCHANGED protoVars
 \* onnx.version_converter.convert_version(proto, target); the `finally` of call_onnx_api restores
 \* the IR model (initializer values, inputs) whatever happened
 CApiConvert == /\ pc = "capi_convert"
-               /\ IF CApiFails(cnodes, declared, t)
+               /\ IF CApiFails(cnodes, declared, Tgt)
                   THEN /\ path' = "fallback_failed" /\ pc' = "cleanup"      \* "The model was not modified"
                        /\ UNCHANGED cnodes
-                  ELSE /\ cnodes' = [k \in DOMAIN cnodes |-> CApiNode(cnodes[k], declared, t)]
+                  ELSE /\ cnodes' = [k \in DOMAIN cnodes |-> CApiNode(cnodes[k], declared, Tgt)]
                        /\ path' = "fallback_ok" /\ pc' = "recover"
-               /\ UNCHANGED cfgVars /\ UNCHANGED <<orig, cin, cinit, used>> /\ UNCHANGED irVars
+               /\ UNCHANGED cfgVars /\ UNCHANGED <<orig, stage, src, cin, cinit, used>> /\ UNCHANGED irVars
                /\ UNCHANGED loopVars /\ UNCHANGED protoVars
 \* for input in converted.inputs: if input.name in model.graph.initializers: value back + register
 RecoverInitializers == /\ pc = "recover"
                        /\ cinit' = cinit \cup (Range(cin) \cap ginit)
                        /\ pc' = "truncate"
-                       /\ UNCHANGED cfgVars /\ UNCHANGED <<path, orig, cin, cnodes, used>> /\ UNCHANGED irVars
+                       /\ UNCHANGED cfgVars /\ UNCHANGED <<path, orig, stage, src, cin, cnodes, used>> /\ UNCHANGED irVars
                        /\ UNCHANGED loopVars /\ UNCHANGED protoVars
 \* user_inputs = converted.inputs[:len(model.graph.inputs)]
 TruncateInputs == /\ pc = "truncate"
                   /\ cin' = SubSeq(cin, 1, Len(gin))
                   /\ pc' = "swap"
-                  /\ UNCHANGED cfgVars /\ UNCHANGED <<path, orig, cinit, cnodes, used>> /\ UNCHANGED irVars
+                  /\ UNCHANGED cfgVars /\ UNCHANGED <<path, orig, stage, src, cinit, cnodes, used>> /\ UNCHANGED irVars
                   /\ UNCHANGED loopVars /\ UNCHANGED protoVars
 \* model.graph = converted_model.graph  (opset_imports live on the graph: declared follows)
 SwapGraph == /\ pc = "swap"
-             /\ nodes' = cnodes /\ gin' = cin /\ ginit' = cinit /\ declared' = t
+             /\ nodes' = cnodes /\ gin' = cin /\ ginit' = cinit /\ declared' = Tgt
              /\ pc' = "cleanup"
-             /\ UNCHANGED cfgVars /\ UNCHANGED <<path, orig, funcs, fnDecl, used>>
+             /\ UNCHANGED cfgVars /\ UNCHANGED <<path, orig, stage, src, funcs, fnDecl, used>>
              /\ UNCHANGED loopVars /\ UNCHANGED capiVars /\ UNCHANGED protoVars
 
 -----------------------------------------------------------------------------
 \* RemoveUnusedNodes/Functions/Opsets: nothing to remove in these models
 Cleanup == /\ pc = "cleanup"
            /\ pc' = IF entry = "proto" THEN "copyback" ELSE "done"
-           /\ UNCHANGED cfgVars /\ UNCHANGED <<path, orig, used>> /\ UNCHANGED irVars
+           /\ UNCHANGED cfgVars /\ UNCHANGED <<path, orig, stage, src, used>> /\ UNCHANGED irVars
            /\ UNCHANGED loopVars /\ UNCHANGED capiVars /\ UNCHANGED protoVars
 \* model_proto.graph.Clear(); del model_proto.functions[:]; graph.CopyFrom(to_proto(model.graph))
 \* code: model_proto.opset_import is not touched
@@ -437,7 +455,7 @@ ProtoCopyBack == /\ pc = "copyback"
                          /\ used' = used \cup (IF declared # pOpset THEN {"proto_opset_stale"} ELSE {})
                     ELSE pOpset' = declared /\ used' = used
                  /\ pc' = "done"
-                 /\ UNCHANGED cfgVars /\ UNCHANGED <<path, orig>> /\ UNCHANGED irVars
+                 /\ UNCHANGED cfgVars /\ UNCHANGED <<path, orig, stage, src>> /\ UNCHANGED irVars
                  /\ UNCHANGED loopVars /\ UNCHANGED capiVars
 
 -----------------------------------------------------------------------------
@@ -450,7 +468,7 @@ OutIn == IF entry = "proto" THEN pIn ELSE gin
 OutInit == IF entry = "proto" THEN pInit ELSE ginit
 Default(ns) == {k \in DOMAIN ns : ns[k].dom = ""}
 
-SrcCheckerOK == \A k \in DOMAIN orig : orig[k].dom # "" \/ CheckerOK(orig[k], s)
+SrcCheckerOK == \A k \in DOMAIN orig : orig[k].dom # "" \/ CheckerOK(orig[k], src)
 OutCheckerOK == \A k \in DOMAIN OutNodes : IsCall(OutNodes[k]) \/ CheckerOK(OutNodes[k], OutDeclared)
 MeaningOf(ns, v) == {Means(ns[k].sem, v) : k \in Default(ns)}
 OutRuns == "norun" \notin MeaningOf(OutNodes, OutDeclared) /\ ~clash
@@ -458,7 +476,7 @@ OutEquivalent == MeaningOf(OutNodes, OutDeclared) \subseteq {"ok"} /\ ~clash
 Unchanged == Forms(OutNodes) = orig
 IrVersions == {nodes[k].ver : k \in Default(nodes)}
 
-DeclaredOK == OutDeclared = t \/ (OutDeclared = s /\ Unchanged)
+DeclaredOK == OutDeclared = Tgt \/ (OutDeclared = src /\ Unchanged)
 ConsistentOK == /\ (OutFuncs # {} => OutFnDecl = OutDeclared)
                 /\ (entry = "ir" => IrVersions \subseteq {0, declared})
 ValidOK == SrcCheckerOK => OutCheckerOK
@@ -471,6 +489,7 @@ Failing == {c \in {"declared", "consistent", "valid", "equivalent", "signature",
 
 \* one JSON line per finished configuration for the conformance harness
 CaseRecord == [s |-> s, t |-> t, entry |-> entry, fb |-> fb, items |-> items, path |-> path,
+               mid |-> mid, stamp |-> stamp, src |-> src,
                declared |-> OutDeclared, irDeclared |-> declared,
                irVersions |-> IrVersions, nfuncs |-> Cardinality(OutFuncs),
                shape |-> [k \in DOMAIN OutNodes |-> <<(IF OutNodes[k].dom = "" THEN "" ELSE OutNodes[k].dom \o "::") \o OutNodes[k].op,
@@ -478,16 +497,31 @@ CaseRecord == [s |-> s, t |-> t, entry |-> entry, fb |-> fb, items |-> items, pa
                srcChecker |-> SrcCheckerOK, checker |-> OutCheckerOK, runs |-> OutRuns,
                equivalent |-> OutEquivalent, sig |-> SigOK, inits |-> InitsOK,
                unchanged |-> Unchanged, prop |-> PropHolds, failing |-> Failing, used |-> used]
-Emit == /\ pc = "done" /\ pc' = "emitted"
+\* History: the SAME object is converted a second time (s -> mid -> t).  An ir.Model keeps what the
+\* first call left in it (node.version stamps, inlined functions, declared opset); a ModelProto is
+\* deserialised afresh.  The property is judged per call: `orig`/`src` are what this call was given.
+SecondCall == /\ pc = "done" /\ mid # 0 /\ stage = 1
+              /\ stage' = 2 /\ path' = "none" /\ pc' = "inline"
+              /\ cur' = 0 /\ fv' = 0 /\ modified' = FALSE /\ clash' = clash
+              /\ IF entry = "ir"
+                 THEN /\ orig' = Forms(nodes) /\ src' = declared
+                      /\ UNCHANGED irVars
+                 ELSE /\ nodes' = [k \in DOMAIN pNodes |-> [pNodes[k] EXCEPT !.ver = 0]]
+                      /\ funcs' = pFuncs /\ fnDecl' = fnDecl /\ declared' = pOpset
+                      /\ gin' = pIn /\ ginit' = pInit
+                      /\ orig' = Forms(pNodes) /\ src' = pOpset
+              /\ UNCHANGED cfgVars /\ UNCHANGED used /\ UNCHANGED capiVars /\ UNCHANGED protoVars
+LastCall == mid = 0 \/ stage = 2
+Emit == /\ pc = "done" /\ LastCall /\ pc' = "emitted"
         /\ (Emitting => PrintT(<<"CASE", ToJson(CaseRecord)>>))
-        /\ UNCHANGED cfgVars /\ UNCHANGED <<path, orig, used>> /\ UNCHANGED irVars
+        /\ UNCHANGED cfgVars /\ UNCHANGED <<path, orig, stage, src, used>> /\ UNCHANGED irVars
         /\ UNCHANGED loopVars /\ UNCHANGED capiVars /\ UNCHANGED protoVars
 
 Next == \/ AddItem \/ FromProto \/ Inline \/ DecideNoop \/ DecideNative \/ DecideFallback
         \/ SkipNode \/ Raise \/ BeginNode \/ StepNoAdapter \/ StepAdapterNone \/ StepAdapterReplace
         \/ Dev_StepAdapterErrorSwallowed \/ Design_AbortUnchanged \/ SetOpset \/ NameFix
         \/ CApiStrip \/ CApiConvert \/ RecoverInitializers \/ TruncateInputs \/ SwapGraph
-        \/ Cleanup \/ ProtoCopyBack \/ Emit
+        \/ Cleanup \/ ProtoCopyBack \/ SecondCall \/ Emit
 Spec == Init /\ [][Next]_vars
 
 Finished == pc \in {"done", "emitted"}
@@ -500,8 +534,12 @@ AdaptersWhereNeeded == \A k \in AdapterKeys : ChangesAt(k[1], k[2])
 \* printed once so that the harness can compare the table with the real registry
 ASSUME PrintT(<<"ADAPTERS", ToJson(AdapterKeys)>>)
 \* vacuity witnesses (each must be VIOLATED = reachable)
-NoAdapterConversion == ~(Finished /\ modified /\ PropHolds /\ OutDeclared = t /\ entry = "proto")
+NoAdapterConversion == ~(Finished /\ modified /\ PropHolds /\ OutDeclared = Tgt /\ entry = "proto")
 NoFallbackSuccess == ~(Finished /\ path = "fallback_ok" /\ PropHolds /\ OutInit # {})
+NoSecondCallConversion == ~(Finished /\ stage = 2 /\ entry = "ir" /\ modified /\ PropHolds
+                            /\ \E k \in DOMAIN nodes : nodes[k].place = "ifbody" /\ nodes[k].op = "Constant")
+NoStampedConversion == ~(Finished /\ stamp /\ modified /\ PropHolds
+                         /\ \E k \in DOMAIN nodes : nodes[k].place = "ifbody" /\ nodes[k].op = "Constant")
 NoRefusal == ~(Finished /\ path \in {"raised", "fallback_failed", "unsupported"} /\ PropHolds)
 
 -----------------------------------------------------------------------------
@@ -517,7 +555,10 @@ TopItems == {<<"dft", Dft(99, 3, 0, 0, 0)>>, <<"gs", Gs("nearest", "", -1)>>, <<
              <<"gn", Gn(6, 2, 0, 3, 1, "symc")>>, <<"gn", Gn(6, 2, 0, 3, 1, "nosc")>>}
 \* initializer kinds: {<= 1000, > 1000 elements} x {plain, also a graph input} x {main graph, used in a subgraph}
 AddItems == {I("add", p, AddP(b, o)) : p \in {"top", "ifbody"}, b \in BOOLEAN, o \in BOOLEAN}
+LoopItems == {I(k[1], "loopbody", k[2]) : k \in {<<"relu", D>>, <<"dft", DftAxis>>, <<"dft", DftNoAxis4>>,
+                                                 <<"gs", Gs("bicubic", "", -1)>>, <<"gn", GnGroup>>}}
 MenuAll == {I(k[1], p, k[2]) : k \in AnyPlaceItems, p \in Places} \cup {I(k[1], "top", k[2]) : k \in TopItems} \cup AddItems
+           \cup LoopItems
 
 \* parameter sweeps of the three adapter ops: every legal axis (the last dimension is the complex
 \* one), flags, dft_length; every GridSample mode x padding x align_corners and "all defaults";
@@ -536,7 +577,13 @@ VarThorough == (VarAll \cup {I("dft", p, q) : p \in {"ifbody", "func"}, q \in Df
                        \cup {I("gs", p, q) : p \in {"ifbody", "func"}, q \in GsPars}
                        \cup {I("gn", p, q) : p \in {"ifbody", "func"}, q \in {g \in GnPars : g.sh = "known"}}) \ MenuAll
 VarVersionsQuick == {18, 19, 20, 21, 23}
+\* two-call histories / stamped sources: adapter ops at top level and inside If and Loop bodies
+HistAll == {I(k[1], p, k[2]) : k \in {<<"relu", D>>, <<"dft", DftAxis>>, <<"gs", Gs("bilinear", "", -1)>>, <<"gn", GnGroup>>},
+                               p \in {"top", "ifbody", "loopbody"}}
+HistVersionsQuick == {18, 19, 20, 21, 22}
+HistVersionsThorough == {18, 19, 20, 21, 22, 25}
 NoItems == {}
+NoVersions == {}
 
 MultiQuick == {I("dft", "top", DftAxis), I("dft", "ifbody", DftAxis), I("gn", "top", Gn(6, 2, 0, 3, 1, "nox")),
                I("add", "top", AddP(TRUE, FALSE))}
